@@ -189,6 +189,10 @@ pub struct Searcher {
     pub origin: Full,
     pub stack: Vec<Frame>,
     pub nodes: usize,
+    /// An `unsafe` primitive (unchecked make, un-make, `TryUnchecked`) has touched this
+    /// board. C02 speaks about positions obtained *without* unsafe code, so its oracles
+    /// are only applied to untainted boards.
+    pub tainted: bool,
 }
 
 /// Model view of one position.
@@ -1054,7 +1058,9 @@ impl World {
             return Ok(Exec::Done);
         }
         if let Err(e) = &res {
-            if applied < tokens.len() {
+            // (only when the reported position is the token that was actually refused; a wrong
+            // position is C13's business and is reported there)
+            if applied < tokens.len() && applied == claimed {
                 let b = self.rc.replayed.last().unwrap().clone();
                 let info = Info::of(&b);
                 let ml = MoveLike::UciStr(tokens[applied].to_string());
